@@ -756,6 +756,22 @@ def do_zone(env, ctx, op):
         text = base
         expect = ("naive",)
         tag = None
+    if kind in ("local", "local_ambiguous", "tzinfos_own_abbr_repeated",
+                "tzinfos_alias_ambiguous") and text.startswith(base) and \
+            (wall.day + wall.minute) % 3 == 0:
+        # the same wall time written as "<weekday> HH:MM <zone>" with a
+        # default up to six days earlier: the weekday move lands on the
+        # date first, the zone (and its reading of a repeated hour) is
+        # resolved for THAT date
+        k = (wall.second + wall.hour) % 7
+        try:
+            kw["default"] = datetime.datetime.combine(
+                wall.date() - datetime.timedelta(days=k), datetime.time())
+            text = R.WDF[wall.weekday()] + " " + base.split(" ", 1)[1] + \
+                text[len(base):]
+            ctx.probe("tz.weekday_move_then_zone")
+        except OverflowError:
+            kw.pop("default", None)
     if ignoretz:
         kw["ignoretz"] = True
     try:
